@@ -177,6 +177,30 @@ let c04_gen cast8 toks =
            Buffer.contents b)
   | _ -> failwith "c04 args"
 
+(* c04o <max> t=<n> c=<n> m=<n> k=<hex|-> o=<n:hex,...|-> p=<hex|-> <one edit item>
+   The extracted specification as an oracle on a printed accessor dump (all values printed in
+   full): -> <0/1> [dump after].  Used on the implementation's own dumps. *)
+let c04o toks =
+  match toks with
+  | mx :: t :: c :: m :: k :: o :: pl :: item ->
+      let fld s = String.sub s 2 (String.length s - 2) in
+      let opts =
+        if fld o = "-" then []
+        else List.map (fun it ->
+            match String.split_on_char ':' it with
+            | [n; v] -> (zi n, bytes_of_tok v)
+            | _ -> failwith "c04o option") (String.split_on_char ',' (fld o)) in
+      let msg = { m_type = zi (fld t); m_code = zi (fld c); m_mid = zi (fld m);
+                  m_token = bytes_of_tok (fld k); m_opts = opts; m_payload = bytes_of_tok (fld pl) } in
+      let q = { p_msg = msg; p_max = zi mx } in
+      (match edit_ops item with
+       | [Ed e] -> let r, q1 = ed_apply q e in
+           Printf.sprintf "%d [%s]" (if r then 1 else 0) (dump_msg q1.p_msg)
+       | [Bo b] -> let r, q1 = apply_op q b in
+           Printf.sprintf "%d [%s]" (if r then 1 else 0) (dump_msg q1.p_msg)
+       | _ -> failwith "c04o item")
+  | _ -> failwith "c04o args"
+
 (* resize <alloc_size> <max_size> <size> : coap_pdu_check_resize -> <0/1> <new alloc_size> *)
 let resize toks =
   match toks with
@@ -186,4 +210,5 @@ let resize toks =
        | Some (r, a') -> Printf.sprintf "%d %d" (if r then 1 else 0) (int_of_z a'))
   | _ -> failwith "resize args"
 
-let () = register "c04" (c04_gen false); register "c04x" (c04_gen true); register "resize" resize
+let () = register "c04" (c04_gen false); register "c04x" (c04_gen true); register "resize" resize;
+  register "c04o" c04o
